@@ -86,6 +86,18 @@ pub fn replay(path: &str) -> i32 {
             println!("encoded {enc:02x?}\ndecoded {dec:?}\nequal: {}", dec.as_ref().map(|d| *d == inputs).unwrap_or(false));
             0
         }
+        "codec-roundtrip-after" => {
+            let prior: Vec<u8> = serde_json::from_value(v["prior"].clone()).unwrap_or_default();
+            let inputs: Vec<Vec<u8>> = serde_json::from_value(v["inputs"].clone()).unwrap_or_default();
+            let reference: Vec<u8> = serde_json::from_value(v["reference"].clone()).unwrap_or_default();
+            let first = ggrs::verif_hooks::codec::decode(&[], &prior);
+            println!("prior call decode([], {prior:02x?}) = {:?}", first.map(|f| f.len()));
+            let enc = ggrs::verif_hooks::codec::encode(&reference, inputs.iter());
+            let dec = ggrs::verif_hooks::codec::decode(&reference, &enc);
+            let equal = dec.as_ref().map(|d| *d == inputs).unwrap_or(false);
+            println!("encoded {enc:02x?}\ndecoded {dec:?}\nequal: {equal}\nreproduces: {}", !equal);
+            0
+        }
         "hashorder" => {
             let scn: Scenario = serde_json::from_value(v["scenario"].clone()).expect("scenario");
             let mut reference = scn.clone();
